@@ -300,6 +300,11 @@ def gen_options(repo, L):
 
     before = codes_of(run.body[:guards[0]])
     after = codes_of(run.body[guards[0] + 1:])
+    both = sorted(set(before) & set(after))
+    if both:
+        # silencing is modelled as a filter on the code: a code emitted on both sides of the guard would make the
+        # filter remove diagnostics that -R CheckDefine keeps
+        raise TranslateError("check_preprocessor_define.py: code(s) %s emitted both before and after the skip_define guard" % both)
     calls, targets = set(), set()
     for st in run.body[guards[0] + 1:]:
         for n in ast.walk(st):
